@@ -329,11 +329,37 @@ func runC17(ch *Choices, cfg *RunCfg) (o *Outcome) {
 	var hist []porcupine.Operation
 	everReturned := map[uintptr]bool{}
 	gotFromPoolAgain := 0
+	inPoolOp := map[int]bool{} // task is between the invoke and the return of a Get / Return
+	s.OnLockWait = func(t *Task) {
+		// "obtaining and returning complete immediately": waiting for a lock that another caller holds only
+		// while it manipulates the pool's own data is a matter of a few statements; a caller that holds the
+		// pool's lock while it runs OTHER code (the factory: object construction) makes everybody else wait
+		// for that work
+		if !inPoolOp[t.ID] || !strings.HasPrefix(siteFunc(t.lastSite), "objectPool.") {
+			return
+		}
+		var culprit *Task
+		for _, h := range s.tasks {
+			if h == t || h.locksHeld == 0 || !inPoolOp[h.ID] {
+				continue
+			}
+			if strings.HasPrefix(siteFunc(h.lastSite), "objectPool.") {
+				return // somebody holds a lock inside pool code: the wait may be for that one
+			}
+			culprit = h
+		}
+		if culprit != nil {
+			s.Fail("c17/blocked", "lock-held-across-factory", fmt.Sprintf("task %d waits in %s for a pool lock while task %d holds a lock and runs %s (object construction inside the pool's critical section): Get / Return do not complete immediately, they wait for another caller's factory call",
+				t.ID, siteString(t.lastSite), culprit.ID, siteString(culprit.lastSite)))
+		}
+	}
 	s.OnEvent = func(ev *Event) {
 		switch ev.Kind {
 		case evGetInv:
+			inPoolOp[ev.Task] = true
 			pendGet[ev.Task] = pend{call: ev.Seq}
 		case evGetRet:
+			inPoolOp[ev.Task] = false
 			if ev.Steps > limGet {
 				s.Fail("c17/no-progress", "Get", fmt.Sprintf("task %d executed %d own statements inside one Get (solo baseline %d, limit %d): the call does not complete immediately", ev.Task, ev.Steps, baseGet, limGet))
 			}
@@ -352,10 +378,12 @@ func runC17(ch *Choices, cfg *RunCfg) (o *Outcome) {
 				gotFromPoolAgain++
 			}
 		case evRetInv:
+			inPoolOp[ev.Task] = true
 			delete(owner, ev.Obj)
 			everReturned[ev.Obj] = true
 			pendRet[ev.Task] = pend{call: ev.Seq, obj: ev.Obj}
 		case evRetRet:
+			inPoolOp[ev.Task] = false
 			if ev.Steps > limRet {
 				s.Fail("c17/no-progress", "Return", fmt.Sprintf("task %d executed %d own statements inside one Return (solo baseline %d, limit %d)", ev.Task, ev.Steps, baseRet, limRet))
 			}
